@@ -9,6 +9,42 @@ def suite_by_name(name):
     return next(s for s in SUITES if s.name == name)
 
 
+def large_structures(r, n_inputs):
+    """databases of ~12 000 observed proteins (too large for the in-Coq evaluation: monitor only): blocks of 1-4 proteins with
+    identical peptide sets, disjoint between blocks, laid out back to back - the groups must be exactly the blocks, whatever the
+    position of a block in the order of processing"""
+    from .grouping_common import group
+    n = 0
+    for _ in range(n_inputs):
+        m, blocks, i = [], [], 0
+        while i < 12000:
+            size = r.rng.choice([1, 1, 2, 3, 4])
+            block = [f"Q{i + j}" for j in range(size)]
+            blocks.append(block)
+            for e in range(r.rng.choice([1, 2])):
+                ps = list(block)
+                r.rng.shuffle(ps)
+                m.append([f"pep{i}_{e}", ps])
+            i += size
+        for mode in ("subset", "pseudo_gene"):
+            n += 1
+            try:
+                out = group(mode, m)
+                got = sorted(sorted(g) for g in out)
+                want = sorted(sorted(b) for b in blocks)
+                wanted = set(map(tuple, want))
+                problem = None if got == want else \
+                    f"{len(out)} groups for {len(blocks)} blocks of proteins with identical peptide sets; first group that is not a block: " \
+                    f"{next((g for g in got if tuple(g) not in wanted), None)}"
+            except Exception as e:
+                problem = f"raised {type(e).__name__}: {e}"[:120]
+            if problem:
+                r.violation("property-failure", {"suite": "large_structures", "mode": mode, "blocks": len(blocks), "proteins": i, "problem": problem,
+                                                 "first_blocks": blocks[:5]}, True, f"large_structures ({mode}, {i} proteins): {problem}"[:400])
+                return n
+    return n
+
+
 def run(r: core.Runner):
     r.assumptions += [
         "networkx.connected_components is tied by correspondence only (re-implemented as a fuel-bounded closure)",
@@ -26,6 +62,7 @@ def run(r: core.Runner):
         orig(kind, data, found_input, what)
     r.violation = violation
     r.run_suite(s)
+    r.traces = (r.traces or 0) + large_structures(r, core.tier_n(r.tier, 3, 12))
     if r.tier == "thorough":
         r.exhaustive = True
         r.extra["exhaustive_scope"] = "all 4-protein x 4-peptide incidence structures (subset mode on all, other modes on a share)"
